@@ -1,25 +1,238 @@
 """C26 -- ffi.init_once runs the initializer once under any interleaving.
 
-Event log + offline checker.  Scenarios: 2-4 threads x 1-3 tags x 1-3 rounds
-on the Python implementation (cffi.FFI) and the C one (_cffi_backend.FFI);
-scripted initializers (succeed / raise / sleep / yield) so that raising and
-succeeding calls race.  Schedule pressure: 1 us switch interval, sys.monitoring
-LINE events inside FFI.init_once() that yield at PRNG-chosen lines (Python
-version), tag objects whose __hash__/__eq__ yield and sleeping initializers (C
-version: the real GIL-release points).  Every event goes to one log under one
-lock with a logical clock; the checker is a deterministic pass over the log.
+Event log + offline checker.  A scenario = 1-6 threads x 1-2 FFI objects x 1-3
+tags x 1-3 rounds of ffi.init_once() calls on the Python implementation
+(cffi.FFI), the C one (_cffi_backend.FFI) or the ffi object of a compiled
+out-of-line module; the unit the property speaks about is a *slot* = (FFI
+object, tag).  Scripted initializers: succeed / raise / sleep / yield, and
+*nest* (the initializer of slot g calls init_once for slots > g, on the same or
+the other FFI object; strictly increasing, so correct code cannot dead-lock).
+
+Input classes (each has a counter in the evidence):
+  * tags: one shared object per tag; a fresh equal-but-not-identical object per
+    call (str, tuple); numerically equal keys of different types (int / float /
+    complex); falsy tags (0, '', (), None, b'', frozenset()); tag objects whose
+    __hash__/__eq__ yield (GIL release points inside the dict operations),
+    shared or fresh per call; tags that all collide on one hash value;
+  * results: unique tuples, None / False / 0 / empty containers, tuples that
+    look like a cache entry, an exception *instance* returned normally;
+    the returned object is compared by identity with the completed f's result;
+  * exceptions: Exception subclasses, KeyError(tag), BaseException subclasses
+    (KeyboardInterrupt, SystemExit, GeneratorExit, own), StopIteration,
+    MemoryError, ...; the propagated object is compared by identity with the
+    one the caller's own f raised; non-callable 'func' (TypeError from the
+    call itself, nothing may be cached);
+  * entry points: positional, keyword (func=, tag=), mixed, unbound method;
+    callables: function, functools.partial, callable object, bound method.
+
+Schedule pressure: 1 us switch interval, sys.monitoring LINE events inside
+FFI.init_once() that yield at PRNG-chosen lines (Python version), yielding
+tags and sleeping initializers (C version: the real GIL-release points).
+Every event goes to one log under one lock with a logical clock; the checker is
+a deterministic pass over the log.
+
+"No call blocks forever": decided on logical evidence only.  (a) inside the
+child: the log stopped advancing, the last event of every unfinished thread
+is 'call' (it is inside init_once itself, not in initializer code), and
+every one of these threads is asleep in the kernel (state S) with a CPU time
+that does not advance, for 5 s of consecutive samples.  (b) from the parent,
+for dead-locks that take the GIL with them (the child's own watchdog cannot
+run then): over 8 s of consecutive samples the child's heartbeat counter
+(written by its main thread every 50 ms) and the per-thread last-event bytes
+(written by the threads themselves) did not change, at least one scenario
+thread is inside init_once itself (last event 'call') and asleep in the
+kernel with constant CPU time, no thread is asleep anywhere else (e.g. inside
+an initializer), and every other thread including the main thread *was
+scheduled* (it spent >= 50 ms of CPU time in that window, spinning on the GIL
+at the 1 us switch interval) without being able to make a single step - so it
+is the GIL they cannot get, not CPU starvation by machine load.  The
+wall-clock watchdog alone still gives 'inconclusive'.
+
 A sample of the C-implementation scenarios is repeated on the TSan build
 (deciding only for reports with a frame inside ffi_init_once).
 """
-import sys, os, time, threading, random
+import sys, os, time, threading, random, json, glob, signal, functools
 from vlib import core
 
-RULE = ("case = one scenario (implementation py|c, 2-4 threads, 1-3 tags, 1-3 rounds, scripted "
-        "initializer behaviour per call, yield-injection seed); distinct = distinct interleaving "
-        "signature (sequence of (thread, event, tag) in log order); non-trivial = at least two "
-        "threads called init_once for the same tag while no result was cached")
-ASSUMPTIONS = ["'no call blocks forever unless an f does' is decided on logical evidence: a scenario is a deadlock only if every unfinished thread is parked in the lock acquisition of init_once while no initializer is running and the log stopped advancing; the wall-clock watchdog alone gives 'inconclusive'",
+RULE = ("case = one scenario (implementation py|c|cmod, 1-6 threads, 1-2 FFI objects, 1-3 tags, "
+        "1-3 rounds, tag class, per call: initializer behaviour (result class / exception class / "
+        "nested init_once calls / sleeps), entry point, callable kind; yield-injection seed); "
+        "distinct = distinct interleaving signature (sequence of (thread, event, slot) in log "
+        "order); non-trivial = at least two threads called init_once for the same (FFI, tag) "
+        "while no result was cached")
+ASSUMPTIONS = ["'no call blocks forever unless an f does' is decided on logical evidence: a scenario is a deadlock only if every unfinished thread is inside init_once itself (last event 'call': not in initializer code), the log stopped advancing, and all these threads are asleep in the kernel with constant CPU time over 5 s of samples (in-child), or - when the GIL is blocked too - heartbeat and per-thread last events unchanged over 8 s of samples while the threads inside init_once are asleep with constant CPU time and all other threads (main thread included) consumed CPU time without making a step (parent-side monitor); the wall-clock watchdog alone gives 'inconclusive'",
+               "initializers nest only towards higher slot numbers, so that a correct implementation (one lock per (FFI, tag)) has no cyclic wait",
                "all interleavings cannot be enumerated by runtime monitoring: reach comes from yield injection, not from a model"]
+
+DEADLOCK_SECS = 5.0       # in-child: consecutive evidence needed
+FREEZE_SECS = 8.0         # parent-side: consecutive evidence needed
+SCENARIO_WATCHDOG = 30.0
+
+
+# ---------------------------------------------------------------------------
+# /proc helpers (parent and child)
+
+def task_states(pid, tids, missing_ok=False):
+    """[(state, utime+stime)] of the given threads; a thread that is gone makes
+    the whole result None (or its entry None with missing_ok)"""
+    out = []
+    for tid in tids:
+        try:
+            with open('/proc/%s/task/%d/stat' % (pid, tid)) as f:
+                s = f.read()
+            fields = s[s.rindex(')') + 2:].split()
+            out.append((fields[0], int(fields[11]) + int(fields[12])))
+        except (OSError, ValueError, IndexError):
+            if not missing_ok:
+                return None
+            out.append(None)
+    return out
+
+
+def task_wchan(pid, tid):
+    try:
+        with open('/proc/%s/task/%d/wchan' % (pid, tid)) as f:
+            return f.read().strip()
+    except OSError:
+        return '?'
+
+
+# ---------------------------------------------------------------------------
+# parent side
+
+class FreezeMonitor(threading.Thread):
+    """Watches the heartbeat files of the children under `root`; decides
+    'frozen' on the evidence described in the module docstring, records the
+    verdict and kills that one child (it would never finish)."""
+
+    def __init__(self, root):
+        threading.Thread.__init__(self, daemon=True)
+        self.root = root
+        self.verdicts = []
+        self.stop_ev = threading.Event()
+
+    def run(self):
+        track = {}
+        while not self.stop_ev.wait(0.5):
+            for hb in glob.glob(os.path.join(self.root, 'run-*', '*.wd', 'c26_hb')):
+                try:
+                    with open(hb, 'rb') as f:
+                        rec = json.loads(f.read(2048).decode().strip())
+                    with open(hb[:-2] + 'ts', 'rb') as f:
+                        ts = f.read(rec['nthreads'])
+                except (OSError, ValueError, KeyError):
+                    track.pop(hb, None)
+                    continue
+                if not rec.get('active') or len(ts) != rec['nthreads']:
+                    track.pop(hb, None)
+                    continue
+                # tids[0] = main thread, tids[1 + t] = scenario thread t
+                sts = task_states(rec['pid'], rec['tids'], missing_ok=True)
+                if sts[0] is None:
+                    track.pop(hb, None)
+                    continue
+                key = (rec['pid'], rec['seed'], rec['ctr'], ts, tuple(x is None for x in sts))
+                now = time.monotonic()
+                prev = track.get(hb)
+                if prev is None or prev['key'] != key:
+                    # something advanced (heartbeat, an event, a thread finished): start over
+                    track[hb] = {'key': key, 'cpu0': [x and x[1] for x in sts], 't0': now, 'n': 0,
+                                 'asleep': [x is not None and x[0] == 'S' for x in sts]}
+                    continue
+                prev['n'] += 1
+                for i, x in enumerate(sts):
+                    if x is not None and not (x[0] == 'S' and x[1] == prev['cpu0'][i]):
+                        prev['asleep'][i] = False
+                if now - prev['t0'] < FREEZE_SECS or prev['n'] < 10:
+                    continue
+                # nothing advanced for FREEZE_SECS.  Every thread must be either asleep in the
+                # kernel the whole time with constant CPU time, or have been *scheduled* plenty
+                # (>= 50 ms of CPU) without being able to log an event / tick the heartbeat: then
+                # it is the GIL it cannot get, not the machine's load.  The asleep ones must all
+                # be inside init_once itself (last event 'call'), not in initializer code.
+                live = [i for i, x in enumerate(sts) if x is not None]
+                spun = [i for i in live if not prev['asleep'][i] and
+                        sts[i][1] - prev['cpu0'][i] >= 5]
+                asleep = [i for i in live if prev['asleep'][i]]
+                parked = [i for i in asleep if i >= 1 and ts[i - 1:i] == b'c']
+                # ('-' = still at the start gate, waiting for a notify of a thread that spins)
+                other_asleep = [i for i in asleep if i >= 1 and ts[i - 1:i] not in (b'c', b'-')]
+                if len(spun) + len(asleep) == len(live) and parked and not other_asleep:
+                    self.freeze(hb, rec, now - prev['t0'], prev['n'],
+                                {'parked_threads': [i - 1 for i in parked],
+                                 'threads_scheduled_without_progress':
+                                     ['main' if i == 0 else i - 1 for i in spun],
+                                 'cpu_ticks_spent': [sts[i][1] - prev['cpu0'][i] for i in live],
+                                 'last_events': ts.decode('latin-1')})
+                    track.pop(hb, None)
+                elif os.environ.get('C26_DEBUG') and prev['n'] % 10 == 0:
+                    sys.stderr.write('c26 monitor: no verdict after %.0f s: seed %s ts=%r states=%r '
+                                     'asleep=%r cpu0=%r\n' % (now - prev['t0'], rec['seed'], ts, sts,
+                                                              prev['asleep'], prev['cpu0']))
+
+    def freeze(self, hb, rec, secs, n, evidence):
+        pid = rec['pid']
+        try:
+            with open('/proc/%d/cmdline' % pid, 'rb') as f:
+                cmd = f.read()
+        except OSError:
+            return
+        if b'vlib.child' not in cmd or b'c26' not in cmd:
+            return
+        wch = [task_wchan(pid, rec['tids'][1 + t]) for t in evidence['parked_threads']]
+        stacks = ''
+        try:
+            with open(os.path.join(os.path.dirname(hb), 'c26_stacks.txt'), errors='replace') as f:
+                stacks = f.read()[-2500:]
+        except OSError:
+            pass
+        self.verdicts.append({'seed': rec['seed'], 'impl': rec['impl'], 'pid': pid,
+                              'secs': round(secs, 1), 'samples': n, 'wchan': wch,
+                              'evidence': evidence, 'stacks': stacks, 'used': False})
+        try:
+            os.kill(pid, signal.SIGKILL)
+        except OSError:
+            pass
+
+
+def run_monitored(ctx, setup, cases, variant, nproc, timeout=900):
+    mon = FreezeMonitor(ctx.tmp)
+    mon.start()
+    try:
+        obs = core.run_cases(ctx, 'c26', setup, cases, variant=variant, nproc=nproc,
+                             timeout=timeout)
+    finally:
+        mon.stop_ev.set()
+        mon.join(5)
+    return obs, mon.verdicts
+
+
+def frozen_case(ctx, case, o, verdicts):
+    """True if this case's child was killed by the freeze monitor (reported here)"""
+    if not (isinstance(o, dict) and '_crash' in o):
+        return False
+    for v in verdicts:
+        if not v['used'] and v['seed'] in case['seeds']:
+            v['used'] = True
+            ctx.count('process_freezes')
+            ctx.violation('deadlock-with-gil-held:' + v['impl'],
+                          'scenario %d (%s): the whole process stopped inside the scenario for '
+                          '%.1f s (%d samples): no event was logged and the main thread\'s 50 ms '
+                          'heartbeat did not advance; thread(s) %s are inside init_once (last '
+                          'event "call"), asleep in the kernel (wchan %s) with constant CPU time; '
+                          'all other threads %s were scheduled (CPU ticks spent per thread: %s) '
+                          'without being able to make a step, i.e. they cannot get the GIL: a '
+                          'thread blocks in init_once while holding the GIL, so the running '
+                          'initializer can never finish.  last events per thread: %r\n'
+                          'stacks (faulthandler, after 6 s):\n%s'
+                          % (v['seed'], v['impl'], v['secs'], v['samples'],
+                             v['evidence']['parked_threads'], sorted(set(v['wchan'])),
+                             v['evidence']['threads_scheduled_without_progress'],
+                             v['evidence']['cpu_ticks_spent'], v['evidence']['last_events'],
+                             v['stacks']),
+                          {'seeds': [v['seed']], 'only': case.get('only')})
+            return True
+    return False
 
 
 def generate(ctx):
@@ -30,10 +243,30 @@ def generate(ctx):
     return None, [{'seeds': seeds[i:i + per]} for i in range(0, n, per)]
 
 
+def build_module(ctx):
+    """compiled out-of-line (API mode) module: its ffi object is the 'compiled C' FFI"""
+    from vlib import modbuild
+    d = os.path.join(ctx.tmp, 'mod')
+    spec = {'name': '_c26mod', 'kind': 'api', 'cdef': 'int c26_id(int);',
+            'source': 'int c26_id(int x) { return x; }', 'dir': d}
+    try:
+        res = modbuild.build_modules(ctx, [spec])['_c26mod']
+    except Exception as e:
+        res = {'ok': False, 'error': repr(e)}
+    if not res.get('ok'):
+        ctx.note('compiled module not built (%s): implementation "cmod" not exercised'
+                 % str(res.get('error'))[:300])
+        return None
+    return d
+
+
 def run(ctx):
-    setup, cases = generate(ctx)
-    obs = core.run_cases(ctx, 'c26', setup, cases, variant='plain', nproc=8, timeout=900)
+    _, cases = generate(ctx)
+    setup = {'moddir': build_module(ctx)}
+    obs, verdicts = run_monitored(ctx, setup, cases, 'plain', 8)
     for c, o in zip(cases, obs):
+        if frozen_case(ctx, c, o, verdicts):
+            continue
         if core.std_obs_check(ctx, c, o, True, False):
             judge(ctx, setup, c, o)
     # TSan sample of the C implementation
@@ -41,8 +274,10 @@ def run(ctx):
     nt = ctx.scale(60, 1500)
     tcases = [{'seeds': [rng.getrandbits(40) for _ in range(30)], 'only': 'c'}
               for _ in range(max(1, nt // 30))]
-    tobs = core.run_cases(ctx, 'c26', setup, tcases, variant='tsan', nproc=2, timeout=900)
+    tobs, verdicts = run_monitored(ctx, {'moddir': None}, tcases, 'tsan', 2)
     for c, o in zip(tcases, tobs):
+        if frozen_case(ctx, c, o, verdicts):
+            continue
         if core.std_obs_check(ctx, c, o, True, False):
             judge(ctx, setup, c, o)
             ctx.count('tsan_scenarios', o['n'])
@@ -54,103 +289,296 @@ def run(ctx):
                         ctx.violation('tsan-race-in-ffi_init_once', block[:1500], c)
     if not ctx.counters.get('raise_vs_success_races'):
         ctx.note('no scenario observed a raising initializer racing a succeeding one')
+    for name in ('nested_calls', 'calls_with_fresh_equal_tag', 'raised_BaseException',
+                 'completed_falsy_result', 'scenarios_two_ffi'):
+        if not ctx.counters.get(name):
+            ctx.note('input class never exercised: ' + name)
 
+
+# ---------------------------------------------------------------------------
+# child side
 
 def child_setup(setup, wd):
     import _cffi_backend
     from cffi import FFI
     sys.setswitchinterval(1e-6)
-    return {'FFI': FFI, 'CFFI': _cffi_backend.FFI}
+    st = {'FFI': FFI, 'CFFI': _cffi_backend.FFI, 'MODFFI': None, 'hb_fd': None, 'ts_fd': None,
+          'stackf': None, 'ctr': 0}
+    if setup and setup.get('moddir'):
+        sys.path.insert(0, setup['moddir'])
+        import _c26mod
+        st['MODFFI'] = _c26mod.ffi
+    if wd:
+        st['hb_fd'] = os.open(os.path.join(wd, 'c26_hb'), os.O_RDWR | os.O_CREAT, 0o644)
+        st['ts_fd'] = os.open(os.path.join(wd, 'c26_ts'), os.O_RDWR | os.O_CREAT, 0o644)
+        st['stackf'] = open(os.path.join(wd, 'c26_stacks.txt'), 'w')
+    return st
+
+
+def heartbeat(st, seed, impl, active, tids):
+    if st.get('hb_fd') is None:
+        return
+    st['ctr'] += 1
+    rec = {'pid': os.getpid(), 'seed': seed, 'impl': impl, 'active': active, 'tids': tids,
+           'nthreads': len(tids) - 1, 'ctr': st['ctr']}
+    os.pwrite(st['hb_fd'], json.dumps(rec).encode().ljust(2048), 0)
 
 
 class Tag(object):
     """hashable tag whose __hash__/__eq__ yield (GIL release points inside the
-    C implementation's dict operations)"""
-    def __init__(self, n, rnd):
-        self.n = n
+    dict operations of both implementations); equality by key, never by
+    identity; `h` forces the hash value (colliding tags)"""
+    def __init__(self, key, rnd, h=None):
+        self.key = key
         self.rnd = rnd
+        self.h = hash(key) if h is None else h
 
     def __hash__(self):
         if self.rnd.random() < 0.3:
             time.sleep(0)
-        return hash(self.n)
+        return self.h
 
     def __eq__(self, other):
         if self.rnd.random() < 0.3:
             time.sleep(0)
-        return isinstance(other, Tag) and other.n == self.n
+        return isinstance(other, Tag) and other.key == self.key
+
+    def __ne__(self, other):
+        return not self.__eq__(other)
+
+    def __repr__(self):
+        return 'Tag(%r)' % (self.key,)
 
 
 class Boom(Exception):
     pass
 
 
+class BoomBase(BaseException):
+    pass
+
+
+class CallableObj(object):
+    def __init__(self, fn):
+        self.fn = fn
+
+    def __call__(self):
+        return self.fn()
+
+    def meth(self):
+        return self.fn()
+
+
+EXC_KINDS = ['Boom', 'Boom', 'Boom', 'KeyError', 'BoomBase', 'KeyboardInterrupt', 'SystemExit',
+             'GeneratorExit', 'StopIteration', 'TypeError', 'AttributeError', 'MemoryError',
+             'LookupError', 'OSError']
+EXC_CLASSES = {'Boom': Boom, 'BoomBase': BoomBase}
+VAL_KINDS = ['uniq'] * 8 + ['none', 'none', 'false', 'zero', 'empty', 'empty', 'pair', 'excobj',
+                            'list']
+TAG_KINDS = ['shared', 'shared', 'fresh-str', 'fresh-tuple', 'numeric', 'falsy', 'yield',
+             'yield-fresh', 'yield-fresh', 'collide']
+FALSY_TAGS = [0, '', (), None, b'', frozenset()]
+
+
+def make_exc(kind, tag):
+    if kind in EXC_CLASSES:
+        cls = EXC_CLASSES[kind]
+    else:
+        cls = getattr(__import__('builtins'), kind)
+    return cls(tag) if kind == 'KeyError' else cls('c26 ' + kind)
+
+
+def make_val(kind, uniq):
+    if kind == 'uniq':
+        return ('value',) + uniq
+    if kind == 'none':
+        return None
+    if kind == 'false':
+        return False
+    if kind == 'zero':
+        return 0
+    if kind == 'empty':
+        return [(), '', [], {}, b''][uniq[-1] % 5]
+    if kind == 'pair':
+        return [(False, threading.Lock()), (True, ('value',) + uniq), (False, None)][uniq[-1] % 3]
+    if kind == 'excobj':
+        return Boom('returned, not raised')
+    return [uniq[-1]]
+
+
+def tag_maker(kind, seed, i, rnd, persistent):
+    """returns a function giving the tag object to pass for tag number i
+    (the same or an equal one at every call)"""
+    if kind == 'falsy' and persistent:
+        kind = 'fresh-tuple'        # a long-lived FFI needs tags unique to the scenario
+    if kind == 'shared':
+        s = '%d/tag%d' % (seed, i) if persistent else 'tag%d' % i
+        return lambda: s
+    if kind == 'fresh-str':
+        return lambda: '%d/tag%d' % (seed, i)          # a new str object every time
+    if kind == 'fresh-tuple':
+        return lambda: (seed, 'tag', i)
+    if kind == 'numeric':
+        base = (seed % 1000003) * 8 + i
+        forms = [int, float, lambda b: complex(b, 0)]
+        return lambda: forms[rnd.randrange(3)](base)
+    if kind == 'falsy':
+        v = FALSY_TAGS[(seed + i) % len(FALSY_TAGS)]
+        return lambda: v
+    if kind == 'yield':
+        t = Tag((seed, i), rnd)
+        return lambda: t
+    if kind == 'yield-fresh':
+        return lambda: Tag((seed, i), rnd)
+    if kind == 'collide':
+        return lambda: Tag((seed, i), rnd, h=seed & 0xffff)
+    raise ValueError(kind)
+
+
 def run_scenario(st, seed, only=None):
     rnd = random.Random(seed)
-    impl = only or rnd.choice(['py', 'c'])
-    nthreads = rnd.choice([2, 2, 3, 4])
+    impls = ['py', 'py', 'c', 'c', 'cmod'] if st.get('MODFFI') is not None else ['py', 'c']
+    pick = rnd.choice(impls)
+    impl = only if only in ('py', 'c', 'cmod') else pick
+    if impl == 'cmod' and st.get('MODFFI') is None:
+        impl = 'c'
+    nthreads = rnd.choice([1, 2, 2, 2, 3, 3, 4, rnd.choice([5, 6])])
+    nffi = rnd.choice([1, 1, 1, 2])
     ntags = rnd.choice([1, 1, 2, 3])
     rounds = rnd.choice([1, 2, 3])
-    ffi = st['FFI']() if impl == 'py' else st['CFFI']()
-    slow_tags = impl == 'c' and rnd.random() < 0.5
-    tags = [Tag(i, random.Random(seed + i)) if slow_tags else 'tag%d' % i for i in range(ntags)]
+    tagkind = rnd.choice(TAG_KINDS)
+    nest_p = rnd.choice([0, 0.15, 0.4])
+    if impl == 'py':
+        ffis = [st['FFI']() for _ in range(nffi)]
+    elif impl == 'c':
+        ffis = [st['CFFI']() for _ in range(nffi)]
+    else:
+        ffis = [st['MODFFI']] + [st['CFFI']() for _ in range(nffi - 1)]
+    tagrnd = random.Random(seed + 7)
+    makers = [tag_maker(tagkind, seed, i, tagrnd, impl == 'cmod') for i in range(ntags)]
+    nslots = nffi * ntags       # slot g = (ffis[g // ntags], tag g % ntags)
     log = []
+    vals = []
+    last = {}
+    stats = {}
     loglock = threading.Lock()
-    running = {}
 
-    def ev(*a):
+    ts_fd = st.get('ts_fd')
+    EVBYTE = {'call': b'c', 'f_enter': b'e', 'f_exit': b'x', 'return': b'r'}
+    if ts_fd is not None:
+        os.pwrite(ts_fd, b'-' * 16, 0)
+
+    def ev(kind, t, g, *a):
         with loglock:
-            log.append((len(log),) + a)
-    # script: (thread, round, tag) -> behaviour
-    script = {}
-    for t in range(nthreads):
-        for r in range(rounds):
-            for g in range(ntags):
-                script[(t, r, g)] = (rnd.choice(['ok', 'ok', 'raise', 'raise', 'ok']),
-                                     rnd.choice([0, 0, 1, 2]), rnd.choice([0, 0, 1]))
-    counter = [0]
+            log.append((len(log), kind, t, g) + a)
+            last[t] = (kind, g)
+        if ts_fd is not None:
+            # last event of each thread, readable by the parent's freeze monitor
+            os.pwrite(ts_fd, EVBYTE[kind], t)
 
-    def make_f(t, r, g):
-        beh, pre, post = script[(t, r, g)]
+    def stat(name, n=1):
+        with loglock:
+            stats[name] = stats.get(name, 0) + n
+
+    def make_f(t, g, trnd, depth, tagobj):
+        beh = trnd.choice(['ok', 'ok', 'raise', 'raise', 'ok'])
+        pre, post = trnd.choice([0, 0, 1, 2]), trnd.choice([0, 0, 1])
+        vkind = trnd.choice(VAL_KINDS)
+        ekind = trnd.choice(EXC_KINDS)
+        nested = []
+        if g + 1 < nslots and trnd.random() < nest_p:
+            nested = sorted(trnd.sample(range(g + 1, nslots), trnd.choice([1, 1, 2])
+                                        if nslots - g - 1 >= 2 else 1))
 
         def f():
             ev('f_enter', t, g)
             for _ in range(pre):
-                time.sleep(0 if rnd.random() < 0.7 else 0.0005)
+                time.sleep(0 if trnd.random() < 0.7 else 0.0005)
+            for h in nested:
+                stat('nested_calls')
+                stat('nested_calls_other_ffi' if h // ntags != g // ntags else
+                     'nested_calls_same_ffi')
+                stat('nested_depth_%d' % min(depth + 1, 3))
+                do_call(t, h, trnd, depth + 1)
             if beh == 'raise':
-                ev('f_exit', t, g, 'exc')
-                raise Boom((t, r, g))
+                exc = make_exc(ekind, tagobj)
+                stat('raised_' + ekind)
+                if not isinstance(exc, Exception):
+                    stat('raised_BaseException')
+                ev('f_exit', t, g, 'exc', exc)
+                raise exc
             with loglock:
-                counter[0] += 1
-                val = ('value', t, r, g, counter[0])
+                val = make_val(vkind, (t, g, len(vals)))
+                vals.append(val)
+                vid = len(vals) - 1
             for _ in range(post):
                 time.sleep(0)
-            ev('f_exit', t, g, 'ok', val)
+            stat('completed_result_' + vkind)
+            if not val:
+                stat('completed_falsy_result')
+            ev('f_exit', t, g, 'ok', vid)
             return val
         return f
+
+    def do_call(t, g, trnd, depth):
+        ffi = ffis[g // ntags]
+        tagobj = makers[g % ntags]()
+        f = make_f(t, g, trnd, depth, tagobj)
+        ckind = trnd.choice(['func', 'func', 'func', 'partial', 'obj', 'method', 'lambda',
+                             'noncallable' if trnd.random() < 0.25 else 'func'])
+        if ckind == 'partial':
+            func = functools.partial(f)
+        elif ckind == 'obj':
+            func = CallableObj(f)
+        elif ckind == 'method':
+            func = CallableObj(f).meth
+        elif ckind == 'lambda':
+            func = lambda: f()
+        elif ckind == 'noncallable':
+            func = trnd.choice([None, 42, 'f'])
+        else:
+            func = f
+        style = trnd.choice(['pos', 'pos', 'kw', 'mixed', 'unbound'])
+        stat('entry_' + style)
+        stat('callable_' + ckind)
+        if tagkind in ('fresh-str', 'fresh-tuple', 'numeric', 'yield-fresh', 'collide'):
+            stat('calls_with_fresh_equal_tag')
+        ev('call', t, g, 'nc' if ckind == 'noncallable' else '')
+        try:
+            if style == 'pos':
+                res = ffi.init_once(func, tagobj)
+            elif style == 'kw':
+                res = ffi.init_once(tag=tagobj, func=func)
+            elif style == 'mixed':
+                res = ffi.init_once(func, tag=tagobj)
+            else:
+                res = type(ffi).init_once(ffi, func, tagobj)
+            ev('return', t, g, 'ok', res)
+        except BaseException as e:
+            ev('return', t, g, 'exc', e)
+
     start = threading.Barrier(nthreads)
+    go = threading.Event()
     yseed = seed ^ 0x9e3779b9
 
     def body(t):
         trnd = random.Random(yseed + t)
+        go.wait()       # the main thread has published the thread ids to the freeze monitor
         try:
             start.wait(10)
         except threading.BrokenBarrierError:
             pass
         for r in range(rounds):
-            order = list(range(ntags))
+            order = list(range(nslots))
             trnd.shuffle(order)
             for g in order:
-                ev('call', t, g)
-                try:
-                    res = ffi.init_once(make_f(t, r, g), tags[g])
-                    ev('return', t, g, 'ok', res)
-                except Boom as e:
-                    ev('return', t, g, 'exc', e.args[0])
-                except BaseException as e:
-                    ev('return', t, g, 'other', type(e).__name__ + ': ' + str(e)[:80])
+                do_call(t, g, trnd, 0)
                 if trnd.random() < 0.3:
                     time.sleep(0)
+        with loglock:
+            last[t] = ('done', -1)
+        if ts_fd is not None:
+            os.pwrite(ts_fd, b'd', t)
     # yield injection inside the Python implementation
     mon = None
     if impl == 'py' and hasattr(sys, 'monitoring'):
@@ -171,135 +599,203 @@ def run_scenario(st, seed, only=None):
         mon.register_callback(tool, mon.events.LINE, on_line)
         mon.set_local_events(tool, code, mon.events.LINE)
     threads = [threading.Thread(target=body, args=(t,), daemon=True) for t in range(nthreads)]
+    import faulthandler
+    if st.get('stackf') is not None:
+        faulthandler.dump_traceback_later(6, repeat=False, file=st['stackf'])
     for th in threads:
         th.start()
-    deadline = time.time() + 30
-    for th in threads:
-        th.join(max(0.1, deadline - time.time()))
+    tids = [threading.main_thread().native_id] + [th.native_id for th in threads]
+    heartbeat(st, seed, impl, 1, tids)
+    go.set()
+    t_start = time.monotonic()
+    verdict = None
+    last_n, ev_t0, ev_n, ev_cpu = -1, None, 0, None
+    detail = ''
+    while True:
+        alive = [(t, th) for t, th in enumerate(threads) if th.is_alive()]
+        if not alive:
+            break
+        now = time.monotonic()
+        heartbeat(st, seed, impl, 1, tids)
+        n = len(log)
+        if n != last_n:
+            last_n, stall_t0, ev_t0 = n, now, None
+        elif now - stall_t0 > 1.0:
+            # the log stopped: gather logical dead-lock evidence
+            with loglock:
+                parked = all(last.get(t, ('', 0))[0] == 'call' for t, th in alive)
+            sts = task_states('self', [th.native_id for t, th in alive]) if parked else None
+            ok = sts is not None and all(s == 'S' for s, c in sts)
+            cpu = [c for s, c in sts] if ok else None
+            if ok and ev_t0 is not None and cpu == ev_cpu and len(log) == last_n:
+                ev_n += 1
+                if now - ev_t0 >= DEADLOCK_SECS and ev_n >= 8:
+                    verdict = 'deadlock'
+                    with loglock:
+                        detail = 'threads %s are inside init_once (last event "call" for slots ' \
+                                 '%s), asleep with constant CPU time for %.1f s (%d samples); ' \
+                                 'initializers entered and not left: %s' % (
+                                     [t for t, th in alive], [last[t][1] for t, th in alive],
+                                     now - ev_t0, ev_n,
+                                     sorted((e[2], e[3]) for e in log if e[1] == 'f_enter' and not
+                                            any(x[1] == 'f_exit' and x[2] == e[2] and x[3] == e[3]
+                                                and x[0] > e[0] for x in log)))
+                    break
+            elif ok:
+                ev_t0, ev_n, ev_cpu = now, 0, cpu
+            else:
+                ev_t0 = None
+        if now - t_start > SCENARIO_WATCHDOG:
+            verdict = 'watchdog'
+            break
+        alive[0][1].join(0.05 if now - t_start < 2 else 0.25)
+    heartbeat(st, seed, impl, 0, tids[:1])
+    if st.get('stackf') is not None:
+        faulthandler.cancel_dump_traceback_later()
     if mon is not None:
         mon.set_local_events(4, cffi.api.FFI.init_once.__code__, 0)
         mon.register_callback(4, mon.events.LINE, None)
         mon.free_tool_id(4)
-    stuck = [th for th in threads if th.is_alive()]
-    verdict = None
-    if stuck:
-        # logical deadlock evidence
-        n0 = len(log)
-        time.sleep(1.0)
-        frames = sys._current_frames()
-        inlock = 0
-        for th in stuck:
-            fr = frames.get(th.ident)
-            names = []
-            while fr is not None:
-                names.append(fr.f_code.co_name)
-                fr = fr.f_back
-            if 'f' not in names:
-                inlock += 1
-        f_running = sum(1 for e in log if e[1] == 'f_enter') - \
-            sum(1 for e in log if e[1] == 'f_exit')
-        if len(log) == n0 and inlock == len(stuck) and f_running == 0:
-            verdict = 'deadlock'
-        else:
-            verdict = 'watchdog'
-    return impl, nthreads, ntags, rounds, log, verdict, slow_tags
+    with loglock:
+        log = list(log)
+        stats = dict(stats)
+    info = {'impl': impl, 'threads': nthreads, 'ffis': nffi, 'tags': ntags, 'rounds': rounds,
+            'tagkind': tagkind, 'nslots': nslots, 'detail': detail}
+    return info, log, vals, verdict, stats
 
 
-def check_log(log, ntags):
+def short(x):
+    try:
+        return repr(x)[:80]
+    except BaseException:
+        return '<%s>' % type(x).__name__
+
+
+def check_log(log, nslots, vals):
     """deterministic pass over the event log; returns list of (mechanism, message)"""
     bad = []
     races = 0
     contended = False
-    for g in range(ntags):
+    for g in range(nslots):
         evs = [e for e in log if e[3] == g]
         running = None
-        ok_val = None
+        ok_vid = None
         ok_at = None
         calls_open = {}
-        raised_own = {}
+        own_exc = {}
+        noncallable = {}
+        raised = []
         for e in evs:
             kind, t = e[1], e[2]
             if kind == 'call':
-                if any(True for x in calls_open) and ok_val is None:
+                if any(True for x in calls_open) and ok_vid is None:
                     contended = True
                 calls_open[t] = e[0]
-                raised_own[t] = False
+                own_exc[t] = None
+                noncallable[t] = e[4] == 'nc'
             elif kind == 'f_enter':
                 if running is not None:
-                    bad.append(('two-initializers-overlap', 'tag %d: f of thread %d entered at '
+                    bad.append(('two-initializers-overlap', 'slot %d: f of thread %d entered at '
                                 'step %d while f of thread %d is running' % (g, t, e[0], running)))
-                if ok_val is not None:
-                    bad.append(('initializer-started-after-success', 'tag %d: f of thread %d '
+                if ok_vid is not None:
+                    bad.append(('initializer-started-after-success', 'slot %d: f of thread %d '
                                 'started at step %d after the successful completion at step %d'
                                 % (g, t, e[0], ok_at)))
                 running = t
             elif kind == 'f_exit':
                 running = None
                 if e[4] == 'ok':
-                    if ok_val is not None:
-                        bad.append(('two-initializers-completed', 'tag %d: a second f completed '
+                    if ok_vid is not None:
+                        bad.append(('two-initializers-completed', 'slot %d: a second f completed '
                                     'normally at step %d (first at %d)' % (g, e[0], ok_at)))
                     else:
-                        ok_val, ok_at = tuple(e[5]), e[0]
+                        ok_vid, ok_at = e[5], e[0]
                 else:
-                    raised_own[t] = True
+                    own_exc[t] = e[5]
+                    raised.append(e[5])
                     if len(calls_open) > 1:
                         races += 1
             elif kind == 'return':
                 calls_open.pop(t, None)
                 if e[4] == 'ok':
-                    if ok_val is None:
-                        bad.append(('returned-without-completion', 'tag %d: thread %d returned '
-                                    '%r at step %d but no f completed normally' %
-                                    (g, t, e[5], e[0])))
-                    elif tuple(e[5]) != ok_val:
-                        bad.append(('returned-other-value', 'tag %d: thread %d returned %r, the '
-                                    'completed f returned %r' % (g, t, e[5], ok_val)))
-                    if raised_own.get(t):
-                        bad.append(('own-exception-swallowed', 'tag %d: thread %d\'s own f raised '
-                                    'but init_once returned normally' % (g, t)))
-                elif e[4] == 'exc':
-                    if not raised_own.get(t):
-                        bad.append(('foreign-exception-propagated', 'tag %d: thread %d got the '
-                                    'exception of %r although its own f did not raise' %
-                                    (g, t, e[5])))
+                    if ok_vid is None:
+                        bad.append(('returned-without-completion', 'slot %d: thread %d returned '
+                                    '%s at step %d but no f completed normally' %
+                                    (g, t, short(e[5]), e[0])))
+                    elif e[5] is not vals[ok_vid]:
+                        bad.append(('returned-other-value', 'slot %d: thread %d returned %s, the '
+                                    'completed f returned %s' % (g, t, short(e[5]),
+                                                                 short(vals[ok_vid]))))
+                    if own_exc.get(t) is not None:
+                        bad.append(('own-exception-swallowed', 'slot %d: thread %d\'s own f raised '
+                                    '%s but init_once returned normally' %
+                                    (g, t, short(own_exc[t]))))
                 else:
-                    bad.append(('unexpected-exception', 'tag %d: thread %d: %s' % (g, t, e[5])))
-                raised_own[t] = False
+                    exc = e[5]
+                    if own_exc.get(t) is not None:
+                        if exc is not own_exc[t]:
+                            bad.append(('own-exception-replaced', 'slot %d: thread %d\'s own f '
+                                        'raised %s but init_once raised %s' %
+                                        (g, t, short(own_exc[t]), short(exc))))
+                    elif any(exc is x for x in raised):
+                        bad.append(('foreign-exception-propagated', 'slot %d: thread %d got the '
+                                    'exception %s although its own f did not raise' %
+                                    (g, t, short(exc))))
+                    elif noncallable.get(t) and isinstance(exc, TypeError):
+                        pass        # the call of the non-callable 'func' itself failed
+                    else:
+                        bad.append(('unexpected-exception', 'slot %d: thread %d: %s: %s' %
+                                    (g, t, type(exc).__name__, short(exc))))
+                own_exc[t] = None
         # a raising f must cache nothing: if no f ever completed normally, no ok return (above)
     return bad, races, contended
 
 
 def child_case(st, case):
     rep = core.ChildRep()
-    for seed in case['seeds']:
-        impl, nth, ntags, rounds, log, verdict, slow = run_scenario(st, seed, case.get('only'))
+    deadlocks = 0
+    seeds = case['seeds']
+    for k, seed in enumerate(seeds):
+        info, log, vals, verdict, stats = run_scenario(st, seed, case.get('only'))
+        impl = info['impl']
         sig = tuple((e[2], e[1], e[3]) for e in log)
-        bad, races, contended = check_log(log, ntags)
+        bad, races, contended = check_log(log, info['nslots'], vals)
         rep.case(sig, nontrivial=contended,
-                 sample={'impl': impl, 'threads': nth, 'tags': ntags, 'rounds': rounds,
-                         'log_head': [list(map(str, e[1:5])) for e in log[:14]]})
+                 sample={'impl': impl, 'threads': info['threads'], 'ffis': info['ffis'],
+                         'tags': info['tags'], 'rounds': info['rounds'],
+                         'tagkind': info['tagkind'],
+                         'log_head': [list(map(short, e[1:5])) for e in log[:14]]})
         rep.stat('scenarios_' + impl)
+        rep.stat('tagkind_' + info['tagkind'])
+        rep.stat('threads_%d' % info['threads'])
+        if info['ffis'] > 1:
+            rep.stat('scenarios_two_ffi')
         rep.stat('events', len(log))
-        if slow:
-            rep.stat('scenarios_with_yielding_tag_hash')
+        for name, n in stats.items():
+            rep.stat(name, n)
         if races:
             rep.stat('raise_vs_success_races', races)
         if contended:
             rep.stat('contended_scenarios')
         if verdict == 'deadlock':
-            rep.bad('deadlock:' + impl, 'all unfinished threads are parked in init_once while no '
-                    'initializer runs; log tail %r' % (log[-6:],), seed)
+            deadlocks += 1
+            rep.bad('deadlock:' + impl, info['detail'] + '; log tail %s | seed %d'
+                    % ([tuple(map(short, e)) for e in log[-6:]], seed), seed)
         elif verdict == 'watchdog':
-            rep.bad('harness-watchdog', 'scenario %d did not finish in 30 s (inconclusive)' % seed,
-                    seed)
+            rep.bad('harness-watchdog', 'scenario %d did not finish in %d s (inconclusive)'
+                    % (seed, SCENARIO_WATCHDOG), seed)
         else:
             ncalls = sum(1 for e in log if e[1] == 'call')
             nret = sum(1 for e in log if e[1] == 'return')
             if ncalls != nret:
                 rep.bad('call-without-return:' + impl, '%d calls, %d returns' % (ncalls, nret), seed)
         for mech, msg in bad:
-            rep.bad('%s:%s' % (mech, impl), msg + ' | seed %d' % seed, seed)
+            rep.bad('%s:%s' % (mech, impl), msg + ' | %s tags, seed %d' % (info['tagkind'], seed),
+                    seed)
+        if deadlocks >= 2 and k + 1 < len(seeds):
+            # every dead-locked scenario costs seconds and leaves parked threads behind
+            rep.stat('seeds_skipped_after_deadlocks', len(seeds) - k - 1)
+            break
     return rep.result()
 
 
@@ -309,7 +805,10 @@ def judge(ctx, setup, case, obs):
 
 def replay(ctx, data):
     case = data['case']
-    obs = core.run_cases(ctx, 'c26', None, [case], variant='plain', nproc=1)
+    setup = {'moddir': build_module(ctx)}
+    obs, verdicts = run_monitored(ctx, setup, [case], 'plain', 1)
     print('observation:', str(obs[0])[:2000])
+    if frozen_case(ctx, case, obs[0], verdicts):
+        return
     if core.std_obs_check(ctx, case, obs[0], True, False):
         judge(ctx, None, case, obs[0])
